@@ -294,10 +294,18 @@ func (check typecheck) binaryExpr(n *node) error {
 	}
 
 	// Ensure that if values are untyped, both are converted to the same type
-	_ = check.convertUntyped(c0, c1.typ)
-	_ = check.convertUntyped(c1, c0.typ)
+	t0untyped, t1untyped := c0.typ.untyped, c1.typ.untyped
+	err0 := check.convertUntyped(c0, c1.typ)
+	err1 := check.convertUntyped(c1, c0.typ)
 
 	if isComparisonAction(a) {
+		// An untyped constant operand must be representable in the type of a typed operand.
+		if err0 != nil && t0untyped && !t1untyped && c0.rval.IsValid() {
+			return err0
+		}
+		if err1 != nil && t1untyped && !t0untyped && c1.rval.IsValid() {
+			return err1
+		}
 		return check.comparison(n)
 	}
 
